@@ -82,6 +82,7 @@ func (cs *Calls) Pending() []*Call {
 // Ctx is a context owned by the harness with a record of when it was cancelled.
 type Ctx struct {
 	Name      string
+	Parent    *Ctx
 	C         context.Context
 	cancel    context.CancelFunc
 	Cancelled bool
@@ -89,10 +90,36 @@ type Ctx struct {
 	CancelAt  int64
 }
 
-// NewCtx derives a cancellable context.
-func NewCtx(parent context.Context, name string) *Ctx {
-	c, cancel := context.WithCancel(parent)
-	return &Ctx{Name: name, C: c, cancel: cancel}
+// NewCtx derives a cancellable context from parent (nil: from context.Background()).
+func NewCtx(parent *Ctx, name string) *Ctx {
+	var pc context.Context = context.Background()
+	if parent != nil {
+		pc = parent.C
+	}
+	c, cancel := context.WithCancel(pc)
+	return &Ctx{Name: name, C: c, cancel: cancel, Parent: parent}
+}
+
+// PreCancelled derives a context that is already cancelled (at the current simulated time).
+func PreCancelled(parent *Ctx, name string) *Ctx {
+	c := NewCtx(parent, name)
+	c.Cancelled = true
+	c.CancelSeq = sim.Seq()
+	c.CancelAt = int64(sim.Now())
+	c.cancel()
+	return c
+}
+
+// ExpiredAt returns the simulated time (ns) at which the context expired (own or inherited
+// cancellation, whichever came first) and whether it has expired at all.
+func (c *Ctx) ExpiredAt() (int64, bool) {
+	at, ok := int64(0), false
+	for x := c; x != nil; x = x.Parent {
+		if x.Cancelled && (!ok || x.CancelAt < at) {
+			at, ok = x.CancelAt, true
+		}
+	}
+	return at, ok
 }
 
 // Cancel cancels the context (a schedule point) and records the event.
